@@ -17,6 +17,7 @@ type SV struct {
 	T     types.Type
 	C     *big.Int // untyped integer constant
 	St    *State   // state this value reads the heap in (nil: environment's current state)
+	Guard *Term    // for map elements: the key is present (otherwise the value is the zero value)
 }
 
 type SpecEnv struct {
@@ -78,7 +79,13 @@ func (e *SpecEnv) value(v *SV) Val {
 		}
 	}
 	if v.Place != nil {
-		return e.stateOf(v).load(v.Place)
+		lv := e.stateOf(v).load(v.Place)
+		if v.Guard != nil {
+			if m, ok := mergeVals(v.Guard, lv, zeroVal(v.T)); ok {
+				return m
+			}
+		}
+		return lv
 	}
 	if v.V == nil && v.C != nil {
 		return IntBig(v.C)
@@ -667,7 +674,7 @@ func (e *SpecEnv) evalSel(x *SX) (*SV, error) {
 	for _, i := range index {
 		f := curT.Field(i)
 		if cur.Place != nil {
-			cur = &SV{Place: fieldPtr(cur.Place, curT, i), T: f.Type(), St: cur.St}
+			cur = &SV{Place: fieldPtr(cur.Place, curT, i), T: f.Type(), St: cur.St, Guard: cur.Guard}
 		} else {
 			sv, ok := cur.V.(*StructV)
 			if !ok {
@@ -731,7 +738,8 @@ func (e *SpecEnv) evalIndex(x *SX) (*SV, error) {
 		i = e.coerce(i, u.Key())
 		m := st.toTerm(e.value(b), b.T)
 		k := e.vc.mapKeyTerm(st, u, e.value(i))
-		return &SV{Place: e.vc.mapValPtr(u, m, k), T: u.Elem(), St: b.St}, nil
+		present := And(Not(Eq(m, IntC(0))), Select(e.vc.mapDom(st, u, m), k))
+		return &SV{Place: e.vc.mapValPtr(u, m, k), T: u.Elem(), St: b.St, Guard: present}, nil
 	case *types.Array:
 		i = e.coerce(i, types.Typ[types.Int])
 		if av, ok := e.value(b).(*ArrV); ok {
